@@ -27,6 +27,8 @@ DOCUMENTED_FAILURE = {'echo': 0x0110, 'store': 0xC000, 'naction': 0x0110, 'neven
 
 def ident(rng, n=0):
     ds = pydicom.Dataset()
+    if n < 0:
+        return ds                  # a match without any attribute: its encoding is empty
     ds.PatientName = 'Q^%d' % rng.randint(0, 9999)
     ds.PatientID = 'P' * rng.randint(1, 7)
     if n:
@@ -409,6 +411,9 @@ def run_move_scp(rng, policy, mid, ctx, n, outcomes, known=True):
 
     @contextlib.contextmanager
     def request_association(remote_ae):
+        if remote_ae is None:
+            # what the real entity does with no destination: AssociationRequester.request() fails on remote_ae.get(...)
+            raise AttributeError("'NoneType' object has no attribute 'get'")
         sub = S.SubAssociation(ae, remote_ae)
         sub.store_status = list(codes)
         ae.sub_associations.append(sub)
